@@ -332,24 +332,45 @@ def run(ctx):
         ctx.fail(c["key"], "%s (%s): %s" % (c["descr"]["op"], c["descr"].get("shape"), "; ".join(MSG[v] for v in vs)), dict(c["descr"], failed_verdicts=vs))
 
     # ------------------------------------------------------------------ jackknife-based product and einsum: value and O(1/N) fluctuations
-    for rep in range(4 if quick else 40):
+    for rep in range(6 if quick else 60):
         N = rng.choice([200, 400])
         n = rng.choice([2, 3])
-        mk = lambda: np.array([[pe.Obs([np.array([rng.gauss(0.0, 0.1) for _ in range(N)]) + rng.uniform(0.5, 2.0)], ["jk"]) for _ in range(n)] for _ in range(n)], dtype=object)
+        cplx = rep % 2 == 1
+        idl_kind = ["default", "offset-strided", "gapped"][rep % 3]
+        if idl_kind == "default":
+            idl = list(range(1, N + 1))
+        elif idl_kind == "offset-strided":
+            idl = list(range(7, 7 + 3 * N, 3))
+        else:
+            full = list(range(11, 11 + 2 * N))
+            idl = sorted(rng.sample(full, N))
+
+        def mk1():
+            return pe.Obs([np.array([rng.gauss(0.0, 0.1) for _ in range(N)]) + rng.uniform(0.5, 2.0)], ["jk"], idl=[idl])
+
+        def mk():
+            m = np.empty((n, n), dtype=object)
+            for idx in np.ndindex((n, n)):
+                m[idx] = pe.CObs(mk1(), mk1()) if cplx else mk1()
+            return m
         a, b = mk(), mk()
         with warnings.catch_warnings():
             warnings.simplefilter("ignore")
             exact = pe.linalg.matmul(a, b)
             for nm, got in (("jack_matmul", pe.linalg.jack_matmul(a, b)), ("einsum", pe.linalg.einsum("ij,jk->ik", a, b))):
                 for idx in np.ndindex((n, n)):
-                    e_, g_ = exact[idx], got[idx]
-                    dv = abs(e_.value - g_.value)
-                    dd = float(np.max(np.abs(e_.deltas["jk"] - g_.deltas["jk"])))
-                    sc = float(np.max(np.abs(e_.deltas["jk"])))
-                    # value: the jackknife mean differs from f(mean) by the O(1/N) bias; fluctuations agree up to O(1/N) relative
-                    if dv > 20.0 / N * sc or dd > 20.0 / N * sc + 1e-12:
-                        ctx.fail("%s:agreement" % nm, "%s differs from the exact product beyond O(1/N): value %.3g, fluctuations %.3g (scale %.3g, N = %d)" % (nm, dv, dd, sc, N), {"N": N, "n": n})
-                    ctx.case((nm, rep, idx, round(e_.value, 9)), nontrivial=True)
+                    parts = [(exact[idx].real, got[idx].real), (exact[idx].imag, got[idx].imag)] if cplx else [(exact[idx], got[idx])]
+                    for e_, g_ in parts:
+                        sc = float(np.max(np.abs(e_.deltas["jk"])))
+                        same_cfgs = list(e_.idl["jk"]) == list(g_.idl["jk"])
+                        dv = abs(e_.value - g_.value)
+                        dd = float(np.max(np.abs(e_.deltas["jk"] - g_.deltas["jk"]))) if same_cfgs else float("inf")
+                        # value: the jackknife mean differs from f(mean) by the O(1/N) bias; fluctuations agree up to O(1/N) relative, configuration by configuration
+                        if not same_cfgs or dv > 20.0 / N * sc or dd > 20.0 / N * sc + 1e-12:
+                            ctx.fail("%s:agreement" % nm, "%s (%s, %s configuration list) differs from the exact product beyond O(1/N): value %.3g, fluctuations %.3g (scale %.3g, N = %d), same configurations: %s"
+                                     % (nm, "complex" if cplx else "real", idl_kind, dv, dd, sc, N, same_cfgs), {"N": N, "n": n, "complex": cplx, "idl": idl_kind})
+                        ctx.case((nm, rep, idx, round(e_.value, 9)), nontrivial=True)
+        ctx.count("jackknife:%s:%s" % ("complex" if cplx else "real", idl_kind))
 
 
 def replay(ctx, doc):
